@@ -31,7 +31,8 @@ func (w *vWorld) vInvariant(key []byte, when string) {
 		}
 		zzverif.Assert(rev > last && rev <= w.dealt, when+": version revisions increase and are at most the highest revision handed out")
 		del := zzverif.BytesEq(e.Val, tombStoneBytes)
-		zzverif.Assert(!(del && lastDel), when+": no two adjacent deletion marks")
+		// (the repair of an unresolved delete writes its deletion mark again at a new revision)
+		zzverif.Assert(!(del && lastDel) || w.marksMayRepeat, when+": no two adjacent deletion marks")
 		last, lastDel = rev, del
 		n++
 	}
@@ -45,15 +46,12 @@ func (w *vWorld) vInvariant(key []byte, when string) {
 	}
 }
 
-// VerifInductiveStep: ONE operation (create / update / delete with symbolic arguments, or a
-// compaction at a symbolic revision) from an ARBITRARY store state of one key that satisfies the
-// representation invariant (0..3 versions with symbolic revisions and values, deletion marks
-// anywhere but adjacent, next to a second live key, the index record in each form the invariant allows, any compaction
-// record): the operation's outcome agrees with the reference chain semantics, reads at every
-// revision from the floor up return the MVCC snapshot, and the invariant holds again — so the
-// write and read lemmas extend from the bounded histories to histories of any length.
-func VerifInductiveStep() {
-	w := vNewWorld(1)
+// vArbitraryState writes an arbitrary store state that satisfies the representation invariant
+// directly into the engine: key vNames[0] with 0..maxversions versions (symbolic revisions below
+// the revision base and symbolic values, deletion marks anywhere but adjacent, the index record in
+// each form the invariant allows), a second live key, and any compaction record. The reference
+// model is filled accordingly.
+func (w *vWorld) vArbitraryState() {
 	key := vNames[0]
 	m := zzverif.Choose("versions", zzverif.Param("maxversions", 3)+1)
 	var prev uint64
@@ -97,6 +95,19 @@ func VerifInductiveStep() {
 		w.s.RawPut(getCompactKey(vPrefix), uint64ToBytes(c))
 		w.floor = c
 	}
+}
+
+// VerifInductiveStep: ONE operation (create / update / delete with symbolic arguments, or a
+// compaction at a symbolic revision) from an ARBITRARY store state of one key that satisfies the
+// representation invariant (0..3 versions with symbolic revisions and values, deletion marks
+// anywhere but adjacent, next to a second live key, the index record in each form the invariant allows, any compaction
+// record): the operation's outcome agrees with the reference chain semantics, reads at every
+// revision from the floor up return the MVCC snapshot, and the invariant holds again — so the
+// write and read lemmas extend from the bounded histories to histories of any length.
+func VerifInductiveStep() {
+	w := vNewWorld(1)
+	key := vNames[0]
+	w.vArbitraryState()
 	w.vInvariant(key, "pre-state")
 
 	// one step
